@@ -376,6 +376,7 @@ func (g *G) stmt(c ctx) []Stmt {
 		add(1+wc, func() []Stmt { return g.mapValuesRewritten() })
 		add(1+wc, func() []Stmt { return g.longListExit(c) })
 		add(1+wc, func() []Stmt { return g.nestedMapLoops() })
+		add(1+2*wc, func() []Stmt { return g.controlAfterFailedLoops() })
 		add(1+2*ws, func() []Stmt { return g.closuresThroughHostCallback() })
 	}
 	if c.inLoop && (!c.tryBrk || g.allowControlInTry()) {
@@ -748,6 +749,78 @@ func (g *G) longListExit(c ctx) []Stmt {
 			&Return{Exprs: []Expr{&IntLit{V: -1}}}}}},
 			&ExprStmt{X: &Call{Fn: "rd", Args: []Expr{&StrLit{V: fn}, &Call{Fn: fn}}}}, rdc)
 	}
+}
+
+// controlAfterFailedLoops: loops that FAIL (a subject that cannot be looped over, a failing
+// condition, a body left by an error) inside try blocks of the same invocation, followed by
+// loops whose break / continue sit inside switch cases, if blocks and inner loops: whatever the
+// failed loops left behind, break and continue act on the innermost enclosing loop only
+func (g *G) controlAfterFailedLoops() []Stmt {
+	g.feat("control-after-failed-loops")
+	var out []Stmt
+	failed := func() Stmt {
+		var loop Stmt
+		switch g.R.Intn(6) {
+		case 0:
+			loop = &ForIn{Vars: []string{"fv"}, X: &BoolLit{V: g.R.Intn(2) == 0}, Body: []Stmt{&ExprStmt{X: g.p()}}}
+		case 1:
+			loop = &ForIn{Vars: []string{"fv"}, X: &NilLit{}, Body: []Stmt{&ExprStmt{X: g.p()}}}
+		case 2:
+			loop = &ForIn{Vars: []string{"fv"}, X: g.failExpr(), Body: []Stmt{&ExprStmt{X: g.p()}}}
+		case 3:
+			loop = &Loop{Cond: &Binary{Op: "<", L: g.failExpr(), R: &IntLit{V: 1}}, Body: []Stmt{&ExprStmt{X: g.p()}}}
+		case 4:
+			loop = &CFor{Init: &Assign{LHS: []Expr{&Name{N: "fi"}}, RHS: []Expr{&IntLit{V: 0}}},
+				Cond: &Binary{Op: "<", L: &Name{N: "fi"}, R: g.failExpr()}, Post: &OpAssign{Target: &Name{N: "fi"}, Op: "+"},
+				Body: []Stmt{&ExprStmt{X: g.p()}}}
+		default:
+			// the body fails in the second round
+			loop = &ForIn{Vars: []string{"fv"}, X: &ListLit{Elems: []Expr{&IntLit{V: 0}, &IntLit{V: 1}, &IntLit{V: 2}}},
+				Body: []Stmt{&ExprStmt{X: g.p()}, &If{Cond: &Binary{Op: "==", L: &Name{N: "fv"}, R: &IntLit{V: 1}}, Then: []Stmt{&ExprStmt{X: g.failExpr()}}}}}
+		}
+		return &Try{Body: []Stmt{loop}, CatchVar: "fe", Catch: []Stmt{&ExprStmt{X: g.p()}}}
+	}
+	for n := 1 + g.R.Intn(3); n > 0; n-- {
+		out = append(out, failed())
+	}
+	cnt := g.fresh("fc")
+	out = append(out, &Assign{LHS: []Expr{&Name{N: cnt}}, RHS: []Expr{&IntLit{V: 0}}})
+	incr := &Assign{LHS: []Expr{&Name{N: cnt}}, RHS: []Expr{&Binary{Op: "+", L: &Name{N: cnt}, R: &IntLit{V: 1}}}}
+	var ctl Stmt = &Break{}
+	if g.R.Intn(3) == 0 {
+		ctl = &Continue{}
+	}
+	list := func() Expr {
+		return &ListLit{Elems: []Expr{&IntLit{V: 0}, &IntLit{V: 1}, &IntLit{V: 2}, &IntLit{V: 3}, &IntLit{V: 4}}}
+	}
+	at := int64(1 + g.R.Intn(3))
+	inSwitch := func(v string) Stmt {
+		return &Switch{X: &Name{N: v}, Cases: []Case{{Exprs: []Expr{&IntLit{V: at}}, Body: []Stmt{&ExprStmt{X: g.p()}, ctl}},
+			{Exprs: []Expr{&IntLit{V: 9}}, Body: []Stmt{&ExprStmt{X: g.p()}}}}}
+	}
+	switch g.R.Intn(4) {
+	case 0:
+		out = append(out, &ForIn{Vars: []string{"cv"}, X: list(), Body: []Stmt{inSwitch("cv"), incr}})
+	case 1:
+		out = append(out, &ForIn{Vars: []string{"cv"}, X: list(), Body: []Stmt{
+			&If{Cond: &Binary{Op: "==", L: &Name{N: "cv"}, R: &IntLit{V: at}}, Then: []Stmt{&Switch{X: &IntLit{V: 1}, Cases: []Case{{Exprs: []Expr{&IntLit{V: 1}}, Body: []Stmt{ctl}}}}}}, incr}})
+	case 2:
+		// the switch sits in the inner loop: only that one is left
+		out = append(out, &ForIn{Vars: []string{"co"}, X: &ListLit{Elems: []Expr{&IntLit{V: 0}, &IntLit{V: 1}}}, Body: []Stmt{
+			&ForIn{Vars: []string{"cv"}, X: list(), Body: []Stmt{inSwitch("cv"), incr}}, &ExprStmt{X: g.p()}}})
+	default:
+		out = append(out, &CFor{Init: &Assign{LHS: []Expr{&Name{N: "cv"}}, RHS: []Expr{&IntLit{V: 0}}},
+			Cond: &Binary{Op: "<", L: &Name{N: "cv"}, R: &IntLit{V: 5}}, Post: &OpAssign{Target: &Name{N: "cv"}, Op: "+"},
+			Body: []Stmt{inSwitch("cv"), incr}})
+	}
+	out = append(out, &ExprStmt{X: &Call{Fn: "rd", Args: []Expr{&StrLit{V: cnt}, &Name{N: cnt}}}})
+	if g.R.Intn(2) == 0 {
+		// the same inside one function invocation
+		fn := g.fresh("cf")
+		return []Stmt{&ExprStmt{X: &FuncLit{Name: fn, Body: append(out, &Return{Exprs: []Expr{&Name{N: cnt}}})}},
+			&ExprStmt{X: &Call{Fn: "rd", Args: []Expr{&StrLit{V: fn}, &Call{Fn: fn}}}}}
+	}
+	return out
 }
 
 // nestedMapLoops: a map loop inside a map loop, after an earlier map loop of the same invocation
